@@ -4,8 +4,11 @@
    `acc r f` is what `r.isMine(path of f)` does: No (False), Yes (True) or Raise e (an exception escapes;
    getreader does not catch it).  Readers without isMine get getreader's fallback checker, which returns
    True whatever happens (= Yes).  `acc` is measured per (reader, file) in a fresh interpreter.
-   impl_* = what the code does (suffix preference inserted INTO THE GLOBAL LIST), spec_* = the repaired
-   getreader (`_myreaders = list(_readers)`).  No proofs in this file. *)
+   impl_* = what the code does since the repair `_myreaders = list(_readers)` (the suffix preference is inserted
+   into a private copy; the state is threaded through the run so that "getreader never changes the registry" is a
+   theorem, not a definition), spec_* = what the property demands: every open behaves as in a fresh process.
+   (Before the repair the insert went into the global list itself; that model was retired with the fix.)
+   No proofs in this file. *)
 From PNC Require Import Base.Util.
 
 Definition name := nat.
@@ -70,17 +73,11 @@ Inductive step :=
 Definition named_result (reg : registry) (fmt : name) : result :=
   match lookup_last fmt reg with Some r => Selected r | None => UnknownFormat end.
 
-(* the code: `_myreaders = _readers` aliases the global, so the insert stays *)
+(* the code: `_myreaders = list(_readers)`; `_myreaders.insert(0, (ext, rdict[ext]))`; first accepting reader.
+   Returns the registry it leaves behind and the result. *)
 Definition impl_step (acc : reader -> file -> outcome) (reg : registry) (s : step) : registry * result :=
   match s with
-  | Auto e f => let reg' := prefer reg e in (reg', first_accepting (fun r => acc r f) reg')
-  | Named n f => (reg, named_result reg n)
-  end.
-
-(* the repaired code: the preference list is a private copy *)
-Definition spec_step (acc : reader -> file -> outcome) (reg : registry) (s : step) : registry * result :=
-  match s with
-  | Auto e f => (reg, first_accepting (fun r => acc r f) (prefer reg e))
+  | Auto e f => let mine := prefer reg e in (reg, first_accepting (fun r => acc r f) mine)
   | Named n f => (reg, named_result reg n)
   end.
 
@@ -99,40 +96,8 @@ Definition impl_results acc reg h : list result := map fst (snd (impl_run acc re
 Definition impl_final acc reg h : registry := fst (impl_run acc reg h).
 
 (* what the property demands: every open behaves as in a fresh process (initial registry reg) *)
-Definition fresh_result acc (reg : registry) (s : step) : result := snd (spec_step acc reg s).
+Definition fresh_result acc (reg : registry) (s : step) : result := snd (impl_step acc reg s).
 Definition spec_results acc (reg : registry) (h : list step) : list result := map (fresh_result acc reg) h.
-Definition spec_final (acc : reader -> file -> outcome) (reg : registry) (h : list step) : registry :=
-  fold_left (fun st s => fst (spec_step acc st s)) h reg.
-
-(* the pairs a history inserts at the front of the registry (in order of the opens) *)
-Fixpoint inserted (reg : registry) (h : list step) : registry :=
-  match h with
-  | [] => []
-  | Auto e _ :: t =>
-      match lookup_last e reg with Some r => (e, r) :: inserted reg t | None => inserted reg t end
-  | Named _ _ :: t => inserted reg t
-  end.
-
-(* ---- the sub-domain on which the defective code is still history independent -------------
-   A step is neutral w.r.t. the pairs `pre` inserted by earlier opens when its own suffix reader decides
-   (claims or chokes on) the file, or when every earlier-preferred reader either rejects the file or
-   produces exactly the result a fresh process produces. *)
-Definition own_decides (acc : reader -> file -> outcome) (reg : registry) (e : name) (f : file) : bool :=
-  match lookup_last e reg with Some r => negb (is_no (acc r f)) | None => false end.
-
-Definition pre_neutral (acc : reader -> file -> outcome) (f : file) (fresh : result) (pre : registry) : bool :=
-  forallb (fun kr => is_no (acc (snd kr) f) || result_eqb (res_of (acc (snd kr) f) (snd kr)) fresh) pre.
-
-Fixpoint neutral_from (acc : reader -> file -> outcome) (reg pre : registry) (h : list step) : bool :=
-  match h with
-  | [] => true
-  | Named _ _ :: t => neutral_from acc reg pre t
-  | Auto e f :: t =>
-      (own_decides acc reg e f || pre_neutral acc f (fresh_result acc reg (Auto e f)) pre)
-      && neutral_from acc reg (match lookup_last e reg with Some r => (e, r) :: pre | None => pre end) t
-  end.
-
-Definition neutral acc reg h : bool := neutral_from acc reg [] h.
 
 (* r is the only reader class of the registry that does not reject f, and it accepts *)
 Definition sole_claimant (acc : reader -> file -> outcome) (reg : registry) (r : reader) (f : file) : bool :=
